@@ -27,12 +27,15 @@ type c20Case struct {
 	Sort    bool       `json:"sort,omitempty"`
 	CI      bool       `json:"ci,omitempty"`
 	Env     string     `json:"env"`
+	Count   int        `json:"count,omitempty"` // seq: the whole history is executed Count times (what -count does), Clean sees -test.count=Count
 	Bound   int        `json:"bound,omitempty"`
 	Sched   []int      `json:"schedule,omitempty"`
 }
 
 var c20Ops = []string{"snap:pass", "snap:added", "snap:updated", "snap:failed", "json:invalid", "json:matcher", "json:added", "yaml:pass", "yaml:matcher",
-	"ssnap:added", "ssnap:failed", "sjson:updated", "skip", "skipf", "skipnow", "skipchild", "snapg:pass"}
+	"ssnap:added", "ssnap:failed", "sjson:updated", "skip", "skipf", "skipnow", "skipchild", "snapg:pass",
+	// the snapshot has to be written but the write fails (the snapshot directory lies below a regular file)
+	"wfail:snap", "wfail:ssnap", "wfail:sjson"}
 
 // c20Want: the outcome class of an op (off CI).
 func c20Want(op string, ci bool) string {
@@ -105,6 +108,11 @@ func c20Do(dir string, name, op string, t *vfT) string {
 	case "skipchild":
 		// a subtest (see c20Names: named <previous test>/child) skipping itself
 		Skip(t, "child")
+	case "wfail:snap", "wfail:ssnap", "wfail:sjson":
+		os.WriteFile(filepath.Join(dir, "blocker"), []byte("a regular file"), 0o644)
+		api := op[len("wfail:"):]
+		_, neu := c20Vals(api)
+		vfCall{API: api, Val: neu}.do(t, filepath.Join(dir, "blocker", "sub"))
 	default:
 		api, k := op[:strings.Index(op, ":")], op[strings.Index(op, ":")+1:]
 		old, neu := c20Vals(api)
@@ -192,6 +200,15 @@ func c20Gen(c *vfCtx, emit func(c20Case)) {
 		emit(c20Case{Kind: "seq", Ops: []string{c20Ops[i], "snapg:pass"}, Stale: 3, Env: env})
 		emit(c20Case{Kind: "seq", Ops: []string{"snapg:pass", c20Ops[i], "snap:pass"}, Stale: 3, Env: env, Sort: true})
 		emit(c20Case{Kind: "seq", Ops: []string{c20Ops[i], c20Ops[i], c20Ops[i], c20Ops[i], c20Ops[i], c20Ops[i]}, Stale: 1, Env: env})
+	}
+	// -count 2 and 3: every history of one op, every rotation window of three, and a summary whose totals are odd
+	for _, cnt := range []int{2, 3} {
+		for i, op := range c20Ops {
+			for _, stale := range []int{0, 2} {
+				emit(c20Case{Kind: "seq", Ops: []string{op}, Stale: stale, Env: env, Count: cnt})
+				emit(c20Case{Kind: "seq", Ops: []string{op, c20Ops[(i+5)%len(c20Ops)], c20Ops[(i+11)%len(c20Ops)]}, Stale: stale, Env: env, Count: cnt, CI: stale == 2 && cnt == 3})
+			}
+		}
 	}
 	// concurrent: ops issued from 2..3 threads, every schedule within the bound
 	if env == "" || c.thorough() {
@@ -313,22 +330,31 @@ func c20Run(c *vfCtx, cs c20Case) {
 	want := map[string]int{}
 	multi := false
 	var skipped []string
-	for i, op := range cs.Ops {
-		t := &vfT{name: names[i]}
-		got := c20Do(dir, names[i], op, t)
-		t.end()
-		c.count("transitions", 1)
-		w := c20Want(op, cs.CI)
-		c.outcome(got)
-		if got != w {
-			c.violation("", fmt.Sprintf("op %d (%s): %s, expected exactly one outcome: %s", i+1, op, got, w), cs)
-			return
-		}
-		want[w]++
-		if w == "skipped" {
-			skipped = append(skipped, names[i])
-		} else if strings.HasPrefix(op, "snap:") || strings.HasPrefix(op, "json:") || strings.HasPrefix(op, "yaml:") {
-			multi = true
+	count := cs.Count
+	if count == 0 {
+		count = 1
+	}
+	for exec := 1; exec <= count; exec++ {
+		for i, op := range cs.Ops {
+			t := &vfT{name: names[i]}
+			got := c20Do(dir, names[i], op, t)
+			t.end()
+			c.count("transitions", 1)
+			w := c20Want(op, cs.CI)
+			if exec > 1 && (w == "added" || w == "updated") {
+				w = "passed" // the first execution stored this very value
+			}
+			c.outcome(got)
+			if got != w {
+				c.violation("", fmt.Sprintf("execution %d, op %d (%s): %s, expected exactly one outcome: %s", exec, i+1, op, got, w), cs)
+				return
+			}
+			want[w]++
+			if w == "skipped" {
+				skipped = append(skipped, names[i])
+			} else if strings.HasPrefix(op, "snap:") || strings.HasPrefix(op, "json:") || strings.HasPrefix(op, "yaml:") {
+				multi = true
+			}
 		}
 	}
 	visited := multi
@@ -363,7 +389,7 @@ func c20Run(c *vfCtx, cs c20Case) {
 			staleF = append(staleF, "g.snap")
 		}
 	}
-	out := vfClean("", 1, cs.Sort)
+	out := vfClean("", count, cs.Sort)
 	c.count("transitions", 1)
 	c.addSet("states", vfHash(out))
 	removed := !cs.CI && (cs.Env == "true" || cs.Env == "clean")
